@@ -25,7 +25,9 @@ import (
 
 type failingReader struct{}
 
-func (failingReader) Read([]byte) (int, error) { return 0, errors.New("injected failure of the entropy source") }
+func (failingReader) Read([]byte) (int, error) {
+	return 0, errors.New("injected failure of the entropy source")
+}
 
 // errchild: GOMAXPROCS from argv[1]; prints one JSON line.
 func errchild() {
